@@ -946,6 +946,15 @@ def move_imports_to_toplevel(source: str) -> str:
     for node in toplevel_imports:
         toplevel_packages.update(_get_package_names(node))
 
+    # Names that the module also binds in some other way: an import of such a name cannot leave
+    # its scope without rebinding the name for everyone else, or being rebound itself.
+    otherwise_bound_names = {node.id for node in core.walk(root, ast.Name(ctx=ast.Store))}
+    otherwise_bound_names.update(node.arg for node in core.walk(root, ast.arg))
+    otherwise_bound_names.update(
+        node.name
+        for node in core.walk(root, (ast.FunctionDef, ast.AsyncFunctionDef, ast.ClassDef))
+    )
+
     imports_movable_to_toplevel = {
         node
         for node in all_imports - toplevel_imports
@@ -954,6 +963,9 @@ def move_imports_to_toplevel(source: str) -> str:
             for name in _get_package_names(node)
         )
         and not core.has_ignore_comment(source, core.get_charnos(node, source))
+        and otherwise_bound_names.isdisjoint(
+            (alias.asname or alias.name).split(".")[0] for alias in node.names
+        )
     }
 
     if defs := set(
